@@ -378,6 +378,36 @@ func runC04(ctx *h.Ctx) int {
 		}
 		k.Nontrivial("repdef", what, len(prog.Items))
 	})
+	// what the binary leaves in its -o file (an existing, longer file is replaced) is the output the properties
+	// speak of
+	ctx.RunCases("cli-output-file", ctx.N(30, 400), func(k *h.Case) {
+		g := spec.NewGen(k.R, prof)
+		prog := g.FullProgram(1 + k.R.IntN(3))
+		rp, rerr := spec.Resolve(prog, prog.Switches)
+		if rerr != nil {
+			return
+		}
+		src := spec.Source(prog)
+		k.SetSource(src)
+		dir := workDir(k)
+		defer cleanWork(dir)
+		o := optsOf(prog, k.R.IntN(2) == 0)
+		cli := runCLIFull(dir, src, prog, o, k.R.IntN(3) == 0, true)
+		k.Count("evaluations", 1)
+		if cli.Err != nil {
+			k.C.Inconclusive("cannot run the CLI: %v", cli.Err)
+			return
+		}
+		if cli.Exit != 0 {
+			k.Count("rejected", 1)
+			return
+		}
+		k.Count("accepted", 1)
+		if closedCheck(k, rp, cli.Out, "binary, -o into an existing longer file") {
+			k.Count("cli_output_files_checked", 1)
+			k.Nontrivial("clifile", len(cli.Out)/64)
+		}
+	})
 	rejectGuard(ctx, 0.35)
 	return ctx.Finish(
 		"whole files mixing scripts, text, movement, mart, mapscripts (plain/inline/table), raw, inline text/moves(), poryswitch, AutoVar conditions; with extra weight on labels in unreachable code. Oracle on each output (optimize on and off): every label defined once; every generated jump/case/map-script/hoisted-argument label defined (author-written goto and plain map-script targets may be external); every label statement present once inside its own script; last instruction of every script is return/end/goto; VM runs never fall out of a script, never hit an undefined label. distinct = distinct script body signature",
